@@ -38,6 +38,8 @@
 (*   DirtyAfterFail      the gun's render buffer keeps the partial output  *)
 (*               of a template that failed DURING execution: the next      *)
 (*               render on the same gun starts with garbage                *)
+(*   KeepDefaults  fields written with their default value are put on the  *)
+(*               wire as if they were set                                  *)
 (*   LeakMd      rendered metadata goes into ONE per-gun map that is never *)
 (*               cleared: keys of earlier steps travel with later calls    *)
 (*                                                                         *)
@@ -54,7 +56,7 @@ EXTENDS Integers, Sequences, FiniteSets, TLC
 CONSTANTS MaxGuns,      \* gun identities 1..MaxGuns (one warm-up gun + one per instance)
           MaxShots,     \* bound on scenario shots per run (design level only)
           KeepLog,      \* keep the log of received calls (design level); the trace spec checks on the fly
-          InPlace, AbortOnBad, DropMd, SharedDialsReflect, ScenarioDeadline, DirtyAfterFail, LeakMd
+          InPlace, AbortOnBad, DropMd, SharedDialsReflect, ScenarioDeadline, DirtyAfterFail, LeakMd, KeepDefaults
 
 VARIABLES kind,     \* "json" | "scn"
           file,     \* sequence of entries [name, steps]
@@ -98,13 +100,16 @@ MdKeys == {"a", "b", "auth"}
 (************************ what a written step means *************************)
 Render(x, t) == [x EXCEPT !.tok = IF x.tok = "" THEN t ELSE x.tok]
 RenderSet(S, t) == {Render(x, t) : x \in S}
+\* a field written with its DEFAULT value ("" / 0; dv) is not part of a proto3 message: the message equals the payload
+\* "interpreted against the input type" when exactly the non-default fields arrive
+RenderFields(S, t) == {[f |-> x.f, pre |-> x.pre, tok |-> IF x.tok = "" THEN t ELSE x.tok] : x \in {y \in S : ~y.dv}}
 \* rec = [method, fields, md] as received: exactly the named method, the message equal to the
 \* payload (every written field with its value, nothing else), the entry's metadata attached
 Fits(step, rec) ==
     /\ step.bad = "none"
     /\ rec.method = step.call
     /\ \E t \in {x.tok : x \in rec.fields \cup rec.md} \cup {"-"} :
-          /\ rec.fields = RenderSet(step.fields, t)
+          /\ rec.fields = RenderFields(step.fields, t)
           /\ RenderSet(step.md, t) = rec.md        \* exactly the step's metadata (grpc's own entries are not in rec)
 
 AllSteps(f) == UNION {Rng(f[i].steps) : i \in DOMAIN f}
@@ -210,7 +215,9 @@ ModelSend(g) ==
         mdAll == {[m EXCEPT !.tok = MdVal(g, s.def, m, t)] : m \in s.md}
         own   == IF DropMd THEN {m \in mdAll : m.k # "a"} ELSE mdAll
         md    == IF LeakMd THEN own \cup {m \in scratch[g] : \A o \in own : o.k # m.k} ELSE own
-        rec   == [method |-> s.call, fields |-> RenderSet(s.fields, t), md |-> md]
+        rec   == [method |-> s.call, md |-> md,
+                  fields |-> IF KeepDefaults THEN {[f |-> x.f, pre |-> x.pre, tok |-> IF x.tok = "" THEN t ELSE x.tok] : x \in s.fields}
+                             ELSE RenderFields(s.fields, t)]
         nc    == [cache EXCEPT ![g] = [x \in DOMAIN @ |->
                      IF \E m \in templ : x = <<s.def, m.k>> THEN
                         (IF @[x] = "none" THEN shared[x] ELSE @[x]) ELSE @[x]]]
